@@ -2,7 +2,7 @@
 From Coq Require Import ZArith List Bool String.
 From TV Require Import Base.Prelude Base.C18_Lib
      Model.C18_Cache Spec.C18_CacheSpec Model.C18_Conc Model.C18_LockSteps Model.C18_Rsa Gen.Locks
-     Proofs.C18_Cache Proofs.C18_CacheWit Proofs.C18_Conc Proofs.C18_Locks Proofs.C18_Rsa Proofs.C18_Lin Proofs.C18_LinEx.
+     Proofs.C18_Cache Proofs.C18_CacheWit Proofs.C18_Conc Proofs.C18_Locks Proofs.C18_Rsa Proofs.C18_Lin Proofs.C18_LinEx Proofs.C18_LinSpec.
 Import ListNotations.
 Open Scope Z_scope.
 
@@ -152,6 +152,16 @@ Theorem cache_linearizable : forall (Lo V : Type) (sem : ccall -> list (step Lo 
     map (fun t => res (t_lo t)) (g_threads cf) = snd m /\
     Forall (fun r => r <> None) (snd m).
 Proof. exact cache_linearizable_all. Qed.
+
+(* ... and what that sequential run returns: calls executed one after the other (`mfold`, each
+   reading a clock that never goes back) with pairwise distinct stored IDs return exactly the
+   outcomes of the abstract specification for the history they form. *)
+Theorem serial_calls_refine_spec : forall n maxAge t0 (cs : list ccall),
+  1 <= n -> Forall (fun c : ccall => 0 <= snd c) cs ->
+  NoDup (put_ids (map (fun c : ccall => (0, fst c)) cs)) ->
+  snd (mfold (init_world n maxAge, t0) cs) = spec_outcomes n maxAge (hist_of t0 cs) /\
+  monotone (hist_of t0 cs) /\ distinct_puts (hist_of t0 cs).
+Proof. exact serial_calls_refine_spec_all. Qed.
 
 (* the two hypotheses are satisfiable for every list of get/put calls: a step program with exactly
    the extracted shapes whose sequential effect is the model (Proofs/C18_LinEx.v) *)
